@@ -96,9 +96,17 @@ fn run<T: QElem>(c: &Case, lx: &mut Local) {
     let mode = if c.all_pivots { PivotMode::All } else { PivotMode::Bounded { policy: Policy::Middle, bound: 2 } };
     // result rank (for selecting strategies) per table, per q, per strategy
     let mut rank_by_table: Vec<Vec<Vec<Option<usize>>>> = Vec::new();
-    for table in 0..3u8 {
+    for table in 0..4u8 {
         // table 2 = 2x+1 relabelling of the spread table where it stays inside the type (skip otherwise)
+        // table 3 (i64 only): values beyond 2^53 that f64 cannot represent; Linear goes through f64 by
+        // documented design, so for it only the laws that hold regardless are required there
+        // (coincidence with Lower at integral positions, q=0 -> min, q=1 -> max)
+        let big = table == 3;
+        if big && T::NAME != "i64" {
+            continue;
+        }
         let tb: Vec<T> = match table {
+            3 => [(1i64 << 53) + 1, (1i64 << 53) + 3, (1i64 << 60) + 1, (1i64 << 61) + 5, (1i64 << 62) + 1, (1i64 << 62) + 3, (1i64 << 62) + 5, (1i64 << 62) + 7][..k].iter().map(|&x| T::from_i64(x).unwrap()).collect(),
             0 => T::table(0, k),
             1 => T::table(if T::NAME == "i64" { 2 } else { 1 }, k),
             _ => {
@@ -154,7 +162,7 @@ fn run<T: QElem>(c: &Case, lx: &mut Local) {
             // bounds
             for (si, v) in row.iter().enumerate() {
                 if let Some(v) = v {
-                    if !(le_tol(&lane_min, v, 2.0) && le_tol(v, &lane_max, 2.0)) {
+                    if !(big && si == 4) && !(le_tol(&lane_min, v, 2.0) && le_tol(v, &lane_max, 2.0)) {
                         lx.fail(if k1_any(&[si]) { K1_KEY } else { "C19/outside-min-max" }, || format!("[{}] quantile({:?},{:?}) = {:?} outside [{:?},{:?}] for {:?}", T::NAME, q, Strat::ALL[si], v, lane_min, lane_max, sorted));
                     }
                     if q == 0.0 && *v != lane_min {
@@ -169,6 +177,9 @@ fn run<T: QElem>(c: &Case, lx: &mut Local) {
             if let (Some(lo), Some(hi)) = (&row[0], &row[1]) {
                 lx.check(lo <= hi, "C19/lower-above-higher", || format!("[{}] q={:?}: Lower {:?} > Higher {:?} for {:?}", T::NAME, q, lo, hi, sorted));
                 for si in 2..5 {
+                    if big && si == 4 {
+                        continue;
+                    }
                     if let Some(v) = &row[si] {
                         if !(le_tol(lo, v, 1.0) && le_tol(v, hi, 1.0)) {
                             lx.fail(if k1_any(&[si]) { K1_KEY } else { "C19/strategy-order" }, || format!("[{}] q={:?}: {:?} = {:?} not within [Lower {:?}, Higher {:?}] for {:?}", T::NAME, q, Strat::ALL[si], v, lo, hi, sorted));
@@ -188,6 +199,9 @@ fn run<T: QElem>(c: &Case, lx: &mut Local) {
             // monotone in q (consecutive grid points; <= is transitive)
             if qi > 0 {
                 for si in 0..5 {
+                    if big && si == 4 {
+                        continue;
+                    }
                     if let (Some(a), Some(b)) = (&res[qi - 1][si], &row[si]) {
                         if !le_tol(a, b, 2.0) {
                             let k1 = k1_applies(&sorted, q, Strat::ALL[si]).is_some() || k1_applies(&sorted, grid[qi - 1], Strat::ALL[si]).is_some();
@@ -217,7 +231,7 @@ fn run<T: QElem>(c: &Case, lx: &mut Local) {
 
 fn main() {
     let mut rep = Report::new("C19");
-    rep.rule = "case = (multiset of ranks, element type); inside: every distinct arrangement of the multiset x q grid x 5 strategies x 3 value tables (spread, extremes, 2x+1 relabelling) x pivot sequences; non-trivial = length >= 2".into();
+    rep.rule = "case = (multiset of ranks, element type); inside: every distinct arrangement of the multiset x q grid x 5 strategies x value tables (spread, extremes, 2x+1 relabelling; for i64 also values beyond 2^53) x pivot sequences; non-trivial = length >= 2".into();
     rep.assume("monotonicity in q is checked on consecutive points of the sorted q grid (<= is transitive, so this decides every ordered pair of the grid)");
     rep.assume("floating-point Midpoint/Linear: inequalities are allowed 1-2 ulp of slack (the property grants one unit in the last place)");
     let nmax = rep.cfg.pick(5, 6);
